@@ -130,7 +130,7 @@ def run(ctx):
                     if m["layer2"] == "raise" or abs(float(Fraction(m["layer2"])) - got) > 1e-5:
                         ctx.mismatch("model of the handler layers disagrees with the implementation", case, impl=got, model=m, failing_input=False,
                                      broken="corr:Ds.Outcome.layer1/caught / theorems C15_*")
-            if ctx.elapsed() > (95 if q else 800):
+            if ctx.elapsed() > (400 if q else 1800):
                 break
     ctx.extra["raw_outcome_kinds"] = {"%s/%s/%s" % k: v for k, v in sorted(outcomes.items())}
     # finiteness of the scoring methods on such data
